@@ -247,6 +247,56 @@ def body_analyze(env):
                            rows[i, j], seq[j], tol=1e-9, key='hotspot_rows_do_not_match_assemblies')
 
 
+def body_table_reader(env):
+    """The real _read_hcf_table on generated tables whose Direct and Statistical rows come in the given order (enumeration of
+    row orders; the numbers are distinct constants, some entries are dT expressions): every constant lands in the row of its
+    own subfactor within its own group (file order kept), every expression is keyed to the position of its own NaN
+    placeholder -- wherever the other group's rows stand in the file."""
+    import os
+    import shutil
+    import tempfile
+    order = env.params['order']                  # e.g. 'DSDS'
+    ncol = env.params['ncol']
+    names = ['Coolant', 'Film', 'Cladding', 'Gap', 'Fuel'][:ncol]
+    d = tempfile.mkdtemp(prefix='dassh-verif-c19.')
+    try:
+        want = {'direct': [], 'statistical': []}
+        wexpr = {}
+        lines = ['Subfactor,Type,' + ','.join(names)]
+        for r_, ch in enumerate(order):
+            key = 'direct' if ch == 'D' else 'statistical'
+            row, cells = [], []
+            for c in range(ncol):
+                if (r_ + 2 * c) % 3 == 0:
+                    e = '1.0%d + 0.000%d * dT' % (r_ + 1, c + 1)
+                    wexpr[(key, len(want[key]), c)] = e
+                    row.append(float('nan'))
+                    cells.append(e)
+                else:
+                    v = 1.0 + 0.01 * (r_ + 1) + 0.001 * (c + 1)
+                    row.append(v)
+                    cells.append(repr(v))
+            want[key].append(row)
+            lines.append('sf%d,%s,%s' % (r_, 'Direct' if ch == 'D' else 'Statistical', ','.join(cells)))
+        path = os.path.join(d, 'hcf.csv')
+        with open(path, 'w') as f:
+            f.write('\n'.join(lines) + '\n')
+        try:
+            hcf, expr = hs._read_hcf_table(path)
+        except (Exception, SystemExit) as ex:       # noqa
+            env.fail('the table is read without an exception', why=repr(ex)[:200], key='table_reader_misplaces_rows')
+            return
+    finally:
+        shutil.rmtree(d, ignore_errors=True)
+    for key in ('direct', 'statistical'):
+        w = np.array(want[key], dtype=float).reshape(len(want[key]), ncol)
+        g = np.asarray(hcf[key], dtype=float).reshape(-1, ncol) if len(want[key]) else np.zeros((0, ncol))
+        env.holds('%s subfactors: constants in the rows of their own subfactors, placeholders where the expressions stand' % key,
+                  g.shape == w.shape and bool(np.array_equal(g, w, equal_nan=True)), key='table_reader_misplaces_rows')
+    env.holds('every expression is keyed to the group, row and column of its own placeholder',
+              {k: v.strip() for k, v in expr.items()} == wexpr, key='table_reader_misplaces_rows')
+
+
 def instances(tier):
     inst = []
     if tier == 'probe':
@@ -266,6 +316,10 @@ def instances(tier):
                          params={'n_asm': na, 'n_sf': nsf, 'n_terms': nt}))
     for v in ('coolant', 'clad_od', 'clad_mw', 'clad_id', 'fuel_od', 'fuel_cl'):
         inst.append(dict(label='peak-dt[%s]' % v, body=body_peakdt, params={'value': v}))
+    for order in ('DDSS', 'SSDD', 'DSDS', 'SDDS', 'SDSD', 'D', 'S', 'SSD'):
+        for ncol in (3, 5):
+            inst.append(dict(label='table-reader[rows %s,%d columns]' % (order, ncol), body=body_table_reader, params={'order': order, 'ncol': ncol},
+                             check_vacuity=False))
     inst.append(dict(label='analyze[three interleaved types, shared locations]', body=body_analyze, params={}, timeout_ms=120000))
     return inst
 
